@@ -77,3 +77,16 @@ dataclass = function(
   bindings=B, props=('C15',))
 dataclass.locals = {'meta_fields': Names, 'data_fields': Names}
 dataclass.inv_hints = {0: ['data_fields[len(data_fields) - 1]', 'meta_fields[len(meta_fields) - 1]', 'len(data_fields) - 1', 'len(meta_fields) - 1']}
+
+# ---- PyTreeNode.__init_subclass__: EVERY subclass - also one that adds no field of its own - is made a flax dataclass ----
+_FLAXDC = Effect('dataclass', [ClassObj, Kwargs], ret=ClassObj)
+init_subclass = function(
+  F + '::PyTreeNode.__init_subclass__', params=[('cls', ClassObj), ('kwargs', Kwargs)],
+  requires=['cls is not None'],
+  ensures=[
+    # unconditional: the subclass itself is frozen, registered as a pytree node and for serialization (contract of `dataclass`)
+    "ncalls('dataclass') == 1 and call_args('dataclass')[0] == cls and call_args('dataclass')[1] == kwargs",
+  ],
+  bindings={'dataclass': Handler('dataclass', lambda ex, a, kw: ex.call_value(_FLAXDC, [a[0], kw['**'] if '**' in kw else ex.empty_map(Kwargs)], {}), 'flax.struct.dataclass(cls, **kwargs): contract above'),
+            'dataclasses.dataclass': NONEV},
+  props=('C15',))
